@@ -211,7 +211,8 @@ def observe_state(ctx, obj, model, step, op):
     mon.check("model:varied values follow varylist order", ok, observed=None if ok else [list(getattr(obj, "varylist", [])), repr(vals)],
               expected=None if ok else [model.varylist, repr(want)], detail={"step": step, "op": op[0]})
     ok = list(obj.get_variable_list()) == model.variable_list
-    mon.check("model:variable list agrees", ok, observed=None if ok else list(obj.get_variable_list()), expected=None if ok else model.variable_list)
+    # the list of parameters that *can* vary is not named by the property: observed only
+    mon.config("variable list agrees with the model" if ok else "variable list differs from the model")
     return ok
 
 
